@@ -69,6 +69,16 @@ def parse_vc(path):
     item = None
     for raw in open(path).read().splitlines():
         m = DIRECTIVE.match(raw)
+        if m and m.group(1) == "import":
+            sub = parse_vc(os.path.join(VERIF, "contracts", m.group(2).strip() + ".vc"))
+            vc["req"] += [r for r in sub["req"] if r not in vc["req"]]
+            vc["prelude"] += sub["prelude"]
+            for k, v in sub["items"].items():
+                v["imported_from"] = m.group(2).strip()
+                vc["items"].setdefault(k, v)
+            vc["trusted"] += sub["trusted"]
+            cur = None
+            continue
         if m and m.group(1) in ("req", "prelude", "fn", "method", "body_start", "body_end", "loop", "trusted", "probe", "end"):
             d, arg = m.group(1), m.group(2).strip()
             if d == "req":
@@ -180,7 +190,7 @@ def assemble(k2v_out, vc, unit):
     for name in vc["items"]:
         if name not in seen:
             problems.append("contract for `%s` has no extracted function (anchor lost: renamed or removed in /repo?)" % name)
-    prelude = open(PRELUDE).read()
+    prelude = open(PRELUDE).read() + "\n" + open(os.path.join(VERIF, "verus", "utf8.rs")).read()
     lines = []
     lines += ["// generated by /verif/lib/vrun/verus.py for unit %s — do not edit" % unit,
               "#![allow(unused_imports, unused_variables, unused_mut, unused_assignments, dead_code, unused_parens, unused_braces, unreachable_code, non_snake_case)]",
